@@ -1179,8 +1179,10 @@ class RefAssignParser(BaseAssignParser):
             value = decoder.decode()
             arghook = None
 
+        # Only ("Interface", <path>, <refmode>) carries a reference mode;
+        # the third element of ("IOSpec", <value id>, <spec id>) is an id.
         if (isinstance(self.obj, Model)
-                or not isinstance(decoder, TupleDecoder)
+                or not isinstance(decoder, InterfaceDecoder)
                 or decoder.size() < 3):
             setter = Instruction.from_method(
                 obj=self.obj,
